@@ -54,6 +54,7 @@ struct StdSpec {
 struct SessionSpec {
     int type = VNACAL_T8;
     int P = 1;
+    int R = 0, C = 0;		// rows / columns of a rectangular calibration (0: square, P x P)
     int F = 1;
     std::vector<double> fv;
     zc z0 = zc(50, 0);
@@ -62,6 +63,10 @@ struct SessionSpec {
     VnaWorld world;
     std::vector<StdSpec> stds;
 };
+
+static inline int ss_rows(const SessionSpec &s) { return s.R > 0 ? s.R : s.P; }
+static inline int ss_cols(const SessionSpec &s) { return s.C > 0 ? s.C : s.P; }
+static inline bool ss_rect(const SessionSpec &s) { return ss_rows(s) != ss_cols(s); }
 
 // S matrix (P x P) a standard presents to the instrument: unused VNA ports are terminated in
 // matched loads without coupling
